@@ -346,7 +346,17 @@ func (s *Server) keepaliveHandler(ctx context.Context) {
 }
 
 func (s *Server) NewClientConn(conn io.ReadWriteCloser, remoteAddr string) *ClientConn {
-	clientConn := &ClientConn{
+	clientConn := s.newUnregisteredClientConn(conn, remoteAddr)
+
+	s.ClientMgr.Add(clientConn)
+
+	return clientConn
+}
+
+// newUnregisteredClientConn returns a ClientConn that is not yet known to the client manager: other
+// users neither see it nor are they told about it until it has been added after a successful login.
+func (s *Server) newUnregisteredClientConn(conn io.ReadWriteCloser, remoteAddr string) *ClientConn {
+	return &ClientConn{
 		Icon:       []byte{0, 0}, // TODO: make array type
 		Connection: conn,
 		Server:     s,
@@ -354,10 +364,6 @@ func (s *Server) NewClientConn(conn io.ReadWriteCloser, remoteAddr string) *Clie
 
 		ClientFileTransferMgr: NewClientFileTransferMgr(),
 	}
-
-	s.ClientMgr.Add(clientConn)
-
-	return clientConn
 }
 
 func sendBanMessage(rwc io.Writer, message string) {
@@ -413,8 +419,9 @@ func (s *Server) handleNewConnection(ctx context.Context, rwc io.ReadWriteCloser
 		return fmt.Errorf("error writing login transaction: %w", err)
 	}
 
-	c := s.NewClientConn(rwc, remoteAddr)
-	defer c.Disconnect()
+	// The connection is registered (and other users are told when it goes away) only once the login has
+	// succeeded; until then it is invisible to everybody else.
+	c := s.newUnregisteredClientConn(rwc, remoteAddr)
 
 	encodedPassword := clientLogin.GetField(FieldUserPassword).Data
 	c.Version = clientLogin.GetField(FieldVersion).Data
@@ -439,6 +446,9 @@ func (s *Server) handleNewConnection(ctx context.Context, rwc io.ReadWriteCloser
 
 		return nil
 	}
+
+	s.ClientMgr.Add(c)
+	defer c.Disconnect()
 
 	if clientLogin.GetField(FieldUserIconID).Data != nil {
 		c.Icon = clientLogin.GetField(FieldUserIconID).Data
